@@ -89,6 +89,8 @@ def cases(tier):
         nr, nrho = G[i % len(G)]
         base = dict(fs=False, embed=list(els[:1]), dens=list(els), pairs=[[a_, z_]], species='builtin', nr=nr, cutoff=2.5, nrho=nrho, cutoff_rho=50.0)
         out.append(dict(kind='adp', m=dict(base, dip=[[z_, a_], [z_, z_]], quad=[[z_, z_], [a_, z_]]), route=('cfg', 'potable')[i % 2]))
+        # the quadrupole section written before the dipole section
+        out.append(dict(kind='adp', m=dict(base, embed=list(els), dip=[[a_, a_], [z_, a_]], quad=[[z_, z_]], adp_order='quad-first'), route=('cfg', 'potable')[(i + 1) % 2]))
         full = dict(base, embed=list(els))
         for j, (dip, quad) in enumerate(((([['Mg', 'O'], [a_, 'O']]), [[a_, z_]]), ([[a_, a_]], [['O', 'O'], ['Mg', z_]]), ([['O', z_]], [['Mg', 'Mg']]))):
             out.append(dict(kind='adp', m=dict(full, dip=dip, quad=quad), route=('cls', 'cfg', 'potable')[(i + j) % 3]))
